@@ -385,6 +385,21 @@ class _Guards:
                     changed = True
                     self._block(s.orelse, kind if not tail_keep else None)
                     break
+        # G7: `if T: <block that always leaves> else: REST` -> `if T: <block>` + REST when the reference knows T as a plain `if`
+        # (the inverse of G6; valid anywhere because the first block never falls through)
+        changed = True
+        while changed:
+            changed = False
+            for i, s in enumerate(block):
+                if isinstance(s, ast.If) and s.orelse and _terminal(s.body) and nnf_text(s.test) in self.known \
+                        and nnf_text(s.test) not in self.known_ifelse and nnf_text(s.test, True) not in self.known_ifelse \
+                        and not any(isinstance(x, ast.NamedExpr) for x in ast.walk(s.test)):
+                    rest = s.orelse
+                    s.orelse = []
+                    block[i + 1:i + 1] = rest
+                    self.n += 1
+                    changed = True
+                    break
         # G5: an if/else in tail position whose test the reference knows only as a plain `if` (a guard clause there):
         #     `if T: A else: B`  ->  `if T: A; return|continue` + B   (or with the negated test, whichever the reference has)
         if kind is not None and block and isinstance(block[-1], ast.If) and block[-1].orelse and not (kind == "return" and False):
